@@ -640,11 +640,23 @@ func (w *MuxWorld) checkEndpoints(when string) {
 	if fmt.Sprint(ids) != fmt.Sprint(eps) {
 		w.violate("C11", "stale-endpoints", "%s: registered sessions %v but the client connection may dial %v", when, ids, eps)
 	}
-	var canCall, ran bool
-	w.s.Spawn("inspect-cancall", func() { canCall = w.mcc.CanMakeCalls(); ran = true })
-	w.settle(5*time.Second, func() bool { return ran })
-	if ran && canCall != (len(ids) > 0) {
-		w.violate("C11", "can-make-calls", "%s: CanMakeCalls()=%v with registered sessions %v", when, canCall, ids)
+	// CanMakeCalls is read by a task of its own; a session may end between the harness's look at
+	// the session table and that task's turn, so the verdict is only taken when the table was
+	// the same before and after (three attempts)
+	for attempt := 0; attempt < 3; attempt++ {
+		before, _, _ := w.proxySessions()
+		var canCall, ran bool
+		w.s.Spawn("inspect-cancall", func() { canCall = w.mcc.CanMakeCalls(); ran = true })
+		w.settle(5*time.Second, func() bool { return ran })
+		after, _, _ := w.proxySessions()
+		if !ran || fmt.Sprint(before) != fmt.Sprint(after) {
+			w.settle(2*time.Second, func() bool { return false })
+			continue
+		}
+		if canCall != (len(after) > 0) {
+			w.violate("C11", "can-make-calls", "%s: CanMakeCalls()=%v with registered sessions %v", when, canCall, after)
+		}
+		return
 	}
 }
 
